@@ -13,7 +13,7 @@ func TestC02(t *testing.T) {
 	runProp(t, "C02", func(t *rapid.T) *core.Case {
 		wo := gen.WindowOpts{NoTail: true}
 		c := drawGeneral(t, gen.Profile{MaxDepth: 1, Focus: "selector", NoScalarFn: true}, wo,
-			gen.DataOpts{Specials: true, MaxSeries: 40})
+			gen.DataOpts{Specials: true, MaxSeries: 40, Big: true})
 		// identity-like contexts
 		switch rapid.IntRange(0, 5).Draw(t, "wrap") {
 		case 1:
@@ -66,7 +66,7 @@ func TestC06(t *testing.T) {
 
 func TestC07(t *testing.T) {
 	runProp(t, "C07", func(t *rapid.T) *core.Case {
-		c := drawGeneral(t, gen.Profile{MaxDepth: 3, NoStartEnd: true}, gen.WindowOpts{ForceRange: true},
+		c := drawGeneral(t, gen.Profile{MaxDepth: 3, NoStartEnd: true}, gen.WindowOpts{ForceRange: true, Long: true},
 			gen.DataOpts{Specials: true, MaxSeries: 10, Histogram: true})
 		n := c.NumSteps()
 		a := rapid.IntRange(0, n-1).Draw(t, "sub0")
